@@ -29,11 +29,49 @@ class Grammar:
         self.rules_ast = {}
         self.consts = {}
         cands = {}
+        # module-level factories (`def _entity(text, replacement, name): return Literal(text).setParseAction(...)`) are expanded
+        # at their call sites, arguments substituted (also inside the lambda of the parse action)
+        import copy as _copy
+        factories = {}
+        for st in tree.body:
+            if isinstance(st, ast.FunctionDef) and not st.args.vararg and not st.args.kwarg:
+                body = [x for x in st.body if not (isinstance(x, ast.Expr) and isinstance(x.value, ast.Constant))]
+                if len(body) == 1 and isinstance(body[0], ast.Return) and body[0].value is not None:
+                    factories[st.name] = (st, body[0].value)
+
+        def expand(v, depth=0):
+            if depth > 4:
+                return v
+
+            class X(ast.NodeTransformer):
+                def visit_Call(self, node):
+                    self.generic_visit(node)
+                    if isinstance(node.func, ast.Name) and node.func.id in factories and not any(isinstance(a, ast.Starred) for a in node.args):
+                        fn_, ret = factories[node.func.id]
+                        ps = [a.arg for a in fn_.args.args]
+                        bound = dict(zip(ps, node.args))
+                        for k in node.keywords:
+                            if k.arg in ps:
+                                bound[k.arg] = k.value
+                        ds = fn_.args.defaults
+                        for p_, d_ in zip(ps[len(ps) - len(ds):], ds):
+                            bound.setdefault(p_, d_)
+                        if set(ps) <= set(bound):
+                            class S(ast.NodeTransformer):
+                                def visit_Name(self, n):
+                                    return _copy.deepcopy(bound[n.id]) if n.id in bound and isinstance(n.ctx, ast.Load) else n
+                            return expand(ast.copy_location(S().visit(_copy.deepcopy(ret)), node), depth + 1)
+                    return node
+            return X().visit(v)
+
         for st in tree.body:
             if isinstance(st, ast.Assign) and len(st.targets) == 1 and isinstance(st.targets[0], ast.Name):
+                if factories and any(isinstance(c, ast.Call) and isinstance(c.func, ast.Name) and c.func.id in factories for c in ast.walk(st.value)):
+                    st.value = ast.fix_missing_locations(expand(st.value))
                 cands[st.targets[0].id] = st.value
-                if isinstance(st.value, ast.Constant) and isinstance(st.value.value, str):
-                    self.consts[st.targets[0].id] = st.value.value
+                folded = self._fold_str(st.value)
+                if folded is not None:
+                    self.consts[st.targets[0].id] = folded
             elif isinstance(st, ast.Expr) and isinstance(st.value, ast.BinOp) and isinstance(st.value.op, ast.LShift) \
                     and isinstance(st.value.left, ast.Name):
                 cands[st.value.left.id + "<<"] = st.value.right
@@ -71,9 +109,31 @@ class Grammar:
                 return self._grammarish(e.func.value, known)
         return False
 
+    def _fold_str(self, a):
+        """a string built from literals, earlier string constants, `+` and f-strings of those; else None"""
+        if isinstance(a, ast.Constant) and isinstance(a.value, str):
+            return a.value
+        if isinstance(a, ast.Name) and a.id in self.consts:
+            return self.consts[a.id]
+        if isinstance(a, ast.BinOp) and isinstance(a.op, ast.Add):
+            l, r = self._fold_str(a.left), self._fold_str(a.right)
+            return l + r if l is not None and r is not None else None
+        if isinstance(a, ast.JoinedStr):
+            parts = []
+            for v in a.values:
+                x = self._fold_str(v.value if isinstance(v, ast.FormattedValue) else v)
+                if x is None or (isinstance(v, ast.FormattedValue) and (v.conversion != -1 or v.format_spec is not None)):
+                    return None
+                parts.append(x)
+            return "".join(parts)
+        return None
+
     def _s(self, a):
         if isinstance(a, ast.Constant) and isinstance(a.value, str):
             return a.value
+        folded = self._fold_str(a)
+        if folded is not None:
+            return folded
         if isinstance(a, ast.Name) and a.id in self.consts:
             return self.consts[a.id]
         if isinstance(a, ast.Name) and a.id in ("alphas", "nums", "alphanums"):
